@@ -12,22 +12,23 @@ Variable parse_tree : mapper -> tz -> res (option T * mapper * tz).
 Variable set_label : T -> option str -> T.
 Variable add_comments : T -> list str -> T.
 Variable vl : bool.
+Variable vs : bool.
 Variables va vk : bool.
 
 Hypothesis parse_tree_suf : forall m z ot m' z',
   parse_tree m z = Ok (ot, m', z') -> suf (z_toks z') (z_toks z).
 Hypothesis upper_idem : forall s, upper (upper s) = upper s.
 
-Notation NR := (nexus_read T lower upper parse_tree set_label add_comments vl).
+Notation NR := (nexus_read T lower upper parse_tree set_label add_comments vl vs).
 Notation NY := (nexus_yield T lower upper parse_tree set_label add_comments vl).
-Notation TLR := (treelist_read T lower upper parse_tree set_label add_comments va vl).
+Notation TLR := (treelist_read T lower upper parse_tree set_label add_comments va vl vs).
 Notation YFF := (yield_from_files T lower upper parse_tree set_label add_comments vl).
-Notation RB := (read_blocks T lower upper parse_tree set_label add_comments vl).
-Notation ROY := (nexus_read_of_yield T lower upper parse_tree set_label add_comments vl parse_tree_suf upper_idem).
+Notation RB := (read_blocks T lower upper parse_tree set_label add_comments vl vs).
+Notation ROY := (nexus_read_of_yield T lower upper parse_tree set_label add_comments vl vs parse_tree_suf upper_idem).
 
 (* the two-implementation theorem, any configuration *)
 Lemma nexus_loops_agree_l : forall (nc : nscfg) (tlf : tl_factory) (ns0 : list str) (d : doc),
-  NoSets upper (fst d) ->
+  SetsOk upper vs (fst d) ->
   let Y := y_items_from_stream T lower upper parse_tree set_label add_comments vl nc false
                                (doc_fuel d) (core_init nc ns0 d) (regs_init nc) in
   match snd Y with
@@ -44,7 +45,7 @@ Proof. intros nc tlf ns0 d N. exact (ROY nc tlf ns0 d N). Qed.
 
 (* the unattached reader succeeded: the iterator under the same configuration did too *)
 Lemma nr_ok_yield : forall nc tlf ns0 d s,
-  NoSets upper (fst d) -> NR (mkCfg nc tlf) ns0 d = Ok s ->
+  SetsOk upper vs (fst d) -> NR (mkCfg nc tlf) ns0 d = Ok s ->
   exists g', NY nc ns0 d = (match tlf with TLFixed => rs_list0 T s | TLNew => concat (rs_blocks T s) end,
                             Ok (r_k s, g')).
 Proof.
@@ -73,7 +74,7 @@ Qed.
 
 (* routes_agree_nexus: TreeList.get / .read succeeds -> the iterator is complete and equal *)
 Lemma routes_agree_nexus_l : forall (ns0 : list str) (d : doc) ts ns,
-  NoSets upper (fst d) ->
+  SetsOk upper vs (fst d) ->
   TLR Nexus ns0 d = Ok (ts, ns) -> YFF Nexus ns0 d = (ts, Ok ns).
 Proof.
   intros ns0 d ts ns N H. unfold treelist_read in H.
@@ -88,9 +89,9 @@ Qed.
 
 (* TreeList.get succeeds -> DataSet.get(taxon_namespace=ns) succeeds with the same trees, grouped *)
 Lemma dataset_attached_l : forall (d : doc) ts ns,
-  NoSets upper (fst d) ->
+  SetsOk upper vs (fst d) ->
   TLR Nexus [] d = Ok (ts, ns) ->
-  exists blocks, dataset_get T lower upper parse_tree set_label add_comments vl Nexus true d = Ok blocks
+  exists blocks, dataset_get T lower upper parse_tree set_label add_comments vl vs Nexus true d = Ok blocks
                  /\ concat blocks = ts.
 Proof.
   intros d ts ns N H. unfold treelist_read in H.
@@ -108,7 +109,7 @@ Qed.
 (* dataset_blocks_concat / offsets: one list per collection vs one list, same namespace handling
    (Tree.get and TreeList.get(collection_offset=..) vs TreeList.get) - exact, both directions *)
 Lemma blocks_vs_list_l : forall (d : doc),
-  NoSets upper (fst d) ->
+  SetsOk upper vs (fst d) ->
   match RB Nexus (cfg_blocks va) [] d with
   | Ok (blocks, ns) => TLR Nexus [] d = Ok (concat blocks, ns)
   | Err e => TLR Nexus [] d = Err e
@@ -116,7 +117,7 @@ Lemma blocks_vs_list_l : forall (d : doc),
   end.
 Proof.
   intros d N. unfold read_blocks, treelist_read.
-  pose proof (list_vs_blocks T lower upper parse_tree set_label add_comments vl parse_tree_suf upper_idem
+  pose proof (list_vs_blocks T lower upper parse_tree set_label add_comments vl vs parse_tree_suf upper_idem
                 (c_ns (cfg_list va)) [] d N) as H.
   change (mkCfg (c_ns (cfg_list va)) TLNew) with (cfg_blocks va) in H.
   change (mkCfg (c_ns (cfg_list va)) TLFixed) with (cfg_list va) in H.
@@ -128,21 +129,21 @@ Qed.
 
 (* offset_selection, NEXUS *)
 Lemma offset_selection_nexus_l : forall (d : doc),
-  NoSets upper (fst d) ->
+  SetsOk upper vs (fst d) ->
   forall blocks ns, RB Nexus (cfg_blocks va) [] d = Ok (blocks, ns) ->
   (* the flat list is the concatenation *)
   TLR Nexus [] d = Ok (concat blocks, ns)
   (* Tree.get(c, k) is Python indexing into the collections *)
-  /\ (forall c k, tree_get T lower upper parse_tree set_label add_comments va vk vl Nexus c k d
+  /\ (forall c k, tree_get T lower upper parse_tree set_label add_comments va vk vl vs Nexus c k d
                   = select_tree T set_label vk blocks (match c with Some c => c | None => 0 end)
                                 (match k with Some k => k | None => 0 end))
   /\ (forall (c k : nat) b t, nth_error blocks c = Some b -> nth_error b k = Some t ->
-        tree_get T lower upper parse_tree set_label add_comments va vk vl Nexus (Some (Z.of_nat c)) (Some (Z.of_nat k)) d
+        tree_get T lower upper parse_tree set_label add_comments va vk vl vs Nexus (Some (Z.of_nat c)) (Some (Z.of_nat k)) d
         = Ok (got_label T set_label vk t)
         /\ nth_error (concat blocks) (length (concat (firstn c blocks)) + k) = Some t)
   (* TreeList.get(collection_offset, tree_offset) is the tail of one collection *)
   /\ (forall c k, (c <> None \/ k <> None) ->
-        treelist_get_off T lower upper parse_tree set_label add_comments va vl Nexus c k d
+        treelist_get_off T lower upper parse_tree set_label add_comments va vl vs Nexus c k d
         = select_offsets T blocks (match c with Some c => c | None => 0 end) k).
 Proof.
   intros d N blocks ns H. pose proof (blocks_vs_list_l d N) as HL. rewrite H in HL.
@@ -157,9 +158,9 @@ Qed.
 (* the full parse failed: every offset route fails the same way *)
 Lemma offset_routes_fail_l : forall sch (d : doc) e,
   RB sch (cfg_blocks va) [] d = Err e ->
-  (forall c k, tree_get T lower upper parse_tree set_label add_comments va vk vl sch c k d = Err e)
+  (forall c k, tree_get T lower upper parse_tree set_label add_comments va vk vl vs sch c k d = Err e)
   /\ (forall c k, (c <> None \/ k <> None) ->
-        treelist_get_off T lower upper parse_tree set_label add_comments va vl sch c k d = Err e).
+        treelist_get_off T lower upper parse_tree set_label add_comments va vl vs sch c k d = Err e).
 Proof.
   intros sch d e H. split.
   - intros. unfold tree_get. rewrite H. reflexivity.
